@@ -60,6 +60,9 @@ type FuncCtx struct {
 	stateID                                                  int
 	strLits                                                  map[string]string
 	obls                                                     []*Obligation
+	callHist                                                 map[string][]callRec // callee name -> its calls translated so far, in order (returned() picks the latest one on the path)
+	loopHistDone                                             map[loopHistKey]bool
+	idxTerms                                                 []string        // index terms of the element accesses translated so far (witness candidates for existentials)
 	assertHit                                                map[*Clause]int // call-site assertions: number of call sites matched
 	whereDefinedHit                                          map[*Clause]int // where-defined postconditions: number of returns they applied at
 	lastCall                                                 map[string]Val  // callee name -> value returned by its latest call in the root function (spec builtin returned())
